@@ -14,6 +14,8 @@ from . import absint, census, comp, ir
 from .absint import OPAQUE, is_variant
 from .report import m_drop_stmt, m_replace
 
+from .wire import _eval_order as wire_eval_order
+
 META = {
     "level": "other",
     "explanation": (
@@ -230,6 +232,19 @@ def rules(ck, P):
                 ok_none = ir.contains(n["then"], lambda y: y.get("k") == "call" and "Ok" in (y.get("q") or "") and ir.contains(y, lambda z: "None" in (z.get("q") or "")))
         ck.check(len(look) == 1 and ok_none, "R-STATUS", b["q"] + "|lookup-error", "a failing lookup is answered as 'no tile' (404), not as a dropped connection",
                  "lookup errors are not mapped to Ok(None)", ir.loc(b))
+        # 404 for a tile request only on the source's own answer: once the coordinate is built, no `Ok(None)` may be produced
+        # before the reader was asked (the source decides which coordinates hold a tile — e.g. zoom level 31 is valid)
+        if len(look) == 1:
+            order = {id(n): i for i, n in enumerate(wire_eval_order(b["body"]))}
+            tcn = [n for n in ir.walk_nodes(b["body"]) if n.get("k") == "call" and (n.get("q") or "").endswith("TileCoord3::new")]
+            early = []
+            for n in ir.walk_nodes(b["body"]):
+                is_none = (n.get("k") == "call" and (n.get("q") or "").endswith("Result::Ok::{Ctor#0}") and n.get("a") and
+                           (ir.strip(n["a"][0]).get("q") or "").endswith("Option::None::{Ctor#0}"))
+                if is_none and tcn and order[id(tcn[0])] < order[id(n)] < order[id(look[0])]:
+                    early.append(ir.loc(n))
+            ck.check(not early, "R-STATUS", b["q"] + "|asks-source", "between building the coordinate and asking the reader no `Ok(None)` is produced: 404 is always the source's own answer",
+                     "the tile endpoint answers `no tile` at %s without asking the source: a coordinate the source holds (e.g. on zoom level 31) gets 404" % early, ir.loc(b))
         # the coordinate handed to the reader is built from the three parsed parts in z/x/y order
         tc = [n for n in ir.walk_nodes(b["body"]) if n.get("k") == "call" and (n.get("q") or "").endswith("TileCoord3::new")]
         okc = False
